@@ -396,6 +396,9 @@ func c01Shapes(c *vlib.Ctx) {
 			vs := cp.Shrinks(seed, c.Pick(160, 1200))
 			st, _ := cp.Structural(seed)
 			vs = append(vs, st...)
+			if si < c.Pick(1, 30) {
+				vs = append(vs, cp.WordSweep(seed, c.Pick(200, 1200))...)
+			}
 			vs = append(vs, cp.LongRepeats(r, seed, c.Pick(3, 40), c.Pick(16384, 65536))...)
 			for _, b := range vs {
 				c01Light(c, r, t, b)
